@@ -566,6 +566,19 @@ impl XlsbBook {
             if let Some(rng) = &mut ex {
                 // foreign records in front of the item: unknown ids, and a block of future records (which may hold
                 // something that looks like an item)
+                if rng.chance(1, 12) {
+                    // a LONG block of future records (several KiB: crosses the reader's 8 KiB buffer)
+                    fr.rec(&mut o, 0x0023, &[0xFF, 0xFF, 0xFF, 0xFF]);
+                    let mut total = 0usize;
+                    let target = *rng.pick(&[8192usize, 16384, 12000]) + rng.below(64) as usize;
+                    while total < target {
+                        let n = rng.range(200, 3000) as usize;
+                        let p = rng.bytes(n);
+                        fr.rec(&mut o, *rng.pick(&[0x0401u16, 0x0013, 0x3FFD]), &p);
+                        total += n + 3;
+                    }
+                    fr.rec(&mut o, 0x0024, &[]);
+                }
                 while rng.chance(1, 4) {
                     if rng.chance(1, 2) {
                         let id = *rng.pick(&[0x0001u16, 0x0012, 0x0014, 0x00A0, 0x3FFF, 0x0427]);
